@@ -284,3 +284,86 @@ func vhC09NoWaiting() {
 	_ = err
 	vAssert("complete-head-is-answered-without-waiting", rd.afterEnd == 0)
 }
+
+// ---- C08: bodies, chunk sizes and trailers ---------------------------------
+
+var c08IsHex = func() (t [256]bool) {
+	for i := range t {
+		t[i] = refHexVal(byte(i)) >= 0
+	}
+	return
+}()
+
+// vhC08ChunkSizeLine: a chunked request or response whose first chunk-size
+// line is 14..17 arbitrary hex digits: the reader returns (no panic, no
+// runaway allocation) for every positive body limit.
+func vhC08ChunkSizeLine() {
+	nd := 14 + vChoose("digits", 4)
+	d := vBytes("size", nd)
+	for _, c := range d {
+		vAssume(c08IsHex[c])
+	}
+	limit := vIntRange("maxBodySize", 1, 8)
+	if vBool("response") {
+		msg := append([]byte("HTTP/1.1 200 OK\r\nTransfer-Encoding: chunked\r\n\r\n"), d...)
+		msg = append(msg, "\r\nx\r\n0\r\n\r\n"...)
+		var resp Response
+		err := resp.ReadLimitBody(bufio.NewReaderSize(bytes.NewReader(msg), 128), limit)
+		vAssert("returns-with-a-bounded-body", err != nil || len(resp.Body()) <= limit)
+	} else {
+		msg := append([]byte("POST / HTTP/1.1\r\nHost: a\r\nTransfer-Encoding: chunked\r\n\r\n"), d...)
+		msg = append(msg, "\r\nx\r\n0\r\n\r\n"...)
+		var req Request
+		err := req.ReadLimitBody(bufio.NewReaderSize(bytes.NewReader(msg), 128), limit)
+		vAssert("returns-with-a-bounded-body", err != nil || len(req.Body()) <= limit)
+	}
+}
+
+// vhC08SplitReads: a complete chunked message with a trailer (and a message
+// with a fixed-length body), delivered in two reads split at any position of
+// its last 14 bytes or in its head; the reader terminates (the engine's step
+// budget turns a spinning loop into a violation), consumes exactly the
+// message and yields the same body and trailer as when it arrives whole.
+func vhC08SplitReads() {
+	x := vBytes("x", 2)
+	for _, c := range x {
+		vAssume(c > ' ' && c < 0x7f && c != ':')
+	}
+	var msg []byte
+	isResp := vBool("response")
+	withTrailer := vBool("chunkedWithTrailer")
+	switch {
+	case isResp && withTrailer:
+		msg = []byte("HTTP/1.1 200 OK\r\nTransfer-Encoding: chunked\r\nTrailer: Foo\r\n\r\n2\r\n" + string(x) + "\r\n0\r\nFoo: " + string(x) + "\r\n\r\n")
+	case isResp:
+		msg = []byte("HTTP/1.1 200 OK\r\nContent-Length: 2\r\n\r\n" + string(x))
+	case withTrailer:
+		msg = []byte("POST / HTTP/1.1\r\nHost: a\r\nTransfer-Encoding: chunked\r\nTrailer: Foo\r\n\r\n2\r\n" + string(x) + "\r\n0\r\nFoo: " + string(x) + "\r\n\r\n")
+	default:
+		msg = []byte("POST / HTTP/1.1\r\nHost: a\r\nContent-Length: 2\r\n\r\n" + string(x))
+	}
+	next := []byte("NEXT")
+	cut := len(msg) - 1 - vChoose("cutFromEnd", 14)
+	if vBool("cutInHead") {
+		cut = 5 + vChoose("cutInHeadAt", 4)*7
+	}
+	rd := &c09SegReader{segs: [][]byte{msg[:cut], append(append([]byte(nil), msg[cut:]...), next...)}}
+	br := bufio.NewReaderSize(rd, 128)
+	var body, trailer []byte
+	var err error
+	if isResp {
+		var resp Response
+		err = resp.ReadLimitBody(br, 16)
+		body, trailer = resp.Body(), resp.Header.Peek("Foo")
+	} else {
+		var req Request
+		err = req.ReadLimitBody(br, 16)
+		body, trailer = req.Body(), req.Header.Peek("Foo")
+	}
+	vAssert("split-message-is-read", err == nil && string(body) == string(x))
+	if withTrailer {
+		vAssert("trailer-is-read", string(trailer) == string(x))
+	}
+	rest, _ := io.ReadAll(br)
+	vAssert("nothing-beyond-the-message-is-consumed", string(rest) == "NEXT")
+}
